@@ -157,8 +157,24 @@ def run(ctx):
             lo, hi = TK.arm_range(ser, m, i)
             local = TK.local_callees_in_lines(facts, ser, lo, hi)
             san = [f for f in local if any(v in (0x0A, 0x0D) for g_ in L.group(facts, f) for b, ty, v in FL.fn_consts(g_))]
+            # or: the text that is formatted after `%` is the result of a call that is handed both EOL characters
+            # (`text.replace(['\r', '\n'], " ")`, `.chars().filter(..)` with the two constants, ...)
+            inline = None
+            fls = FL.flow(ser)
+            for b0, c0, a0, d0 in L.calls_matching(ser, lambda c: (c.get("p") or "").startswith("core::fmt::rt::Argument")):
+                if not (lo <= ser.line(b0) <= hi):
+                    continue
+                seen0, dr0 = fls.back_slice([l for o in a0 for l in FL.op_locals(o)])
+                for cb, cc in fls.calls_in_slice(dr0):
+                    if not (lo <= ser.line(cb) <= hi):
+                        continue
+                    ks = set(v for bb, ty, v in FL.fn_consts(ser) if bb == cb and ty in ("char", "u8") and isinstance(v, int))
+                    if {0x0A, 0x0D} <= ks:
+                        inline = L.short(cc.get("p") or "?")
             if san:
                 ctx.ok("R3", "comment:no-eol", "comment text sanitised by %s" % L.short(san[0]))
+            elif inline:
+                ctx.ok("R3", "comment:no-eol", "the formatted text is the result of %s(.., CR/LF, ..)" % inline)
             else:
                 ctx.violation("R3", "comment:no-eol", "Op::Comment text is written after `%` verbatim: a comment containing a line break "
                               "ends the comment early and the rest of the text is parsed as operators", "%s:%d" % (m["file"], lo))
